@@ -843,10 +843,32 @@ def r_visit_tables(c):
             if fd is None:
                 continue
             n += 1
-            looks = find(fd, "if $k in self.$t:\n    return")
-            adds = find(fd, "self.$t.add($k)")
-            ok = len(looks) == 1 and len(adds) == 1 and looks[0]["$t"] == adds[0]["$t"] \
-                and looks[0]["$k"] == adds[0]["$k"]
+            # by case (pta/symrun.py): where the key is in the table nothing is added and
+            # nothing walked; where it is not, the key is added to that very table --
+            # `if k in T: return` + tail and `if k not in T: <walk; add>` are one table
+            import re
+            from pta import symrun
+            looks, adds = [], []
+            ok = True
+            tbl_ = symrun.table(m.expand_locals(fd, only="aliases").body, lambda t: None)
+            for cs, ev in tbl_.items():
+                mem = [(re.fullmatch(r"(.+) in self\.(\w+)", k), v) for k, v in cs]
+                mem = [(mm.group(1), mm.group(2), v) for mm, v in mem if mm]
+                if len(mem) != 1:
+                    ok = False
+                    continue
+                k_, t_, present = mem[0]
+                looks.append({"$k": k_, "$t": t_})
+                calls = [e for e in ev if e[0] == "call"]
+                added = [e for e in calls if re.fullmatch(r"self\.\w+\.add", e[1])]
+                if present:
+                    ok = ok and not calls
+                else:
+                    adds += [{"$t": e[1].split(".")[1], "$k": e[2][0] if e[2] else None}
+                             for e in added]
+                    ok = ok and len(added) == 1 and added[0][1] == f"self.{t_}.add" \
+                        and added[0][2] == (k_,)
+            ok = ok and len(tbl_) == 2
             c.check(ok, "R13-ONCE", f"{short(q)}.{mn}", "looked-up-and-added-in-one-table",
                     m.loc(ci.module, fd),
                     f"the key is looked up in {[l['$t'] for l in looks]} but added to "
